@@ -27,6 +27,12 @@ type OpFn func(a []string) (string, []Fail)
 
 var ops = map[string]OpFn{}
 
+// counters collects distribution facts the oracles see but the canonical lines do not show
+// (e.g. how many generated structures really verified); reported in stats.json.
+var counters = map[string]int{}
+
+func count(key string) { counters[key]++ }
+
 func reg(name string, f OpFn) { ops[name] = f }
 
 // ---- canonical encodings -------------------------------------------------------------------
